@@ -42,7 +42,7 @@ RX = {
     "sheet": re.compile(r"^When looking for a sheet named '(\w+)', the following sheets with similar names were found: (.*?)\. If you do not mean"),
     "iana": re.compile(r"^The following language declarations do not contain valid machine-readable codes: (.*)\. Learn more"),
     "maxpixels": re.compile(r"^\[row : (\d+)\] Use the max-pixels parameter"),
-    "deprecated": re.compile(r"^\[row : (\d+)\] (\w+) is no longer supported on most devices"),
+    "deprecated": re.compile(r"^\[row : (\d+)\] ([\w ]+?) is no longer supported on most devices"),
     "nolabel": re.compile(r"^\[row : (\d+)\] (Group|Repeat) has no label: "),
     "choice_nolabel": re.compile(r"^\[row : (\d+)\] On the 'choices' sheet, the 'label' value is invalid\. Choices should have a label"),
     "or_other": re.compile(r"^This form uses or_other and translations"),
@@ -165,7 +165,7 @@ def expected(sheets, form=None):
                 continue
             if t == "image" and "max-pixels" not in (cell.get("parameters") or ""):
                 exp["maxpixels"].append(ri)
-            if t in ("simserial", "subscriberid"):
+            if t in ("simserial", "subscriberid", "sim id", "get sim id", "subscriber id", "get subscriber id"):  # every spelling of the two deprecated types
                 exp["deprecated"].append((ri, t))
             if t in ("begin group", "begin repeat"):
                 has_label = any(split_header(k)[0] == "label" and v not in (None, "") for k, v in cell.items())
@@ -498,8 +498,8 @@ def run_shard(ctx):
             if not any(h.split(":")[0] == "label" for h in r.cells) and rng.random() < 0.5:
                 r.cells[rng.choice(["hint", "hint", "guidance_hint"])] = "section hint"
         if rng.random() < 0.3:
-            for t in rng.sample(["simserial", "subscriberid", "deviceid"], 2):
-                form.survey.insert(rng.randint(0, len(form.survey)), Row("q", t, f"md_{t}_{i}", {}))
+            for t in rng.sample(["simserial", "subscriberid", "deviceid", "sim id", "get subscriber id", "subscriber id", "get sim id", "get device id", "phonenumber"], 3):
+                form.survey.insert(rng.randint(0, len(form.survey)), Row("q", t, f"md_{t.replace(' ', '_')}_{i}", {}))
         if rng.random() < 0.3:
             for r in rng.sample(rows, min(2, len(rows))):
                 if r.kind == "q":
